@@ -23,6 +23,8 @@
 (*         G1      nl  (csi|pad)* pos (csi|pad)* dup                      "8\r\n\x1b[25;119H8" *)
 (*         G2      pos (csi|pad)* nl (csi|pad)* pos (csi|pad)* dup   "6\x1b[30;1H..\n\x1b[29;120H6" *)
 (*         G3      home stray pos nl <next letter>        "o\x08..\x1b[Hp\x1b[60;238H..\r\np"  *)
+(*         G0      nl (csi | pad)*  with no cursor-position sequence: a bare wrap, then the    *)
+(*                 next letter (the statement's "wraps inserted at any position")             *)
 (*       i.e. a re-printed character always follows a re-positioning after a newline, a      *)
 (*       newline inside a line is always followed by one of these forms, and after the       *)
 (*       re-print only colour/erase/padding may precede the next letter.                     *)
@@ -223,7 +225,7 @@ ProduceLet(it) ==
     /\ it.k = "let" /\ ph \in {"pre", "line"}
     /\ IF InMarker THEN it.b = <<FullMarker[Len(CurLine) + 1]>>
                    ELSE it.b[1] \in PayBytes /\ PayLen < MaxPay
-    /\ (mode = "win" => gs \in {"free", "posd", "closed", "straynl"})
+    /\ (mode = "win" => gs \in {"free", "posd", "closed", "straynl", "nld"})   \* "nld": a bare wrap (CR LF / LF with no re-positioning in this gap)
     /\ Emit(it)
     /\ want' = [want EXCEPT ![Len(want)].line = @ \o it.b]
     /\ ph' = "line" /\ gs' = "free"
